@@ -123,6 +123,14 @@ theorem pool_restored_behaves (reset : T → T) (evs : List Ev) (a : Allocator T
       (runPool reset evs (a, held)).map (fun s => counts s.1) := by
   rw [Snap.pool_run_counts_only, Snap.pool_run_counts_only, Snap.alloc_snapshot_counts]
 
+/-- A pooled `BondContainer` that went through `reset()` (= `clear()`, body shape-checked against the source on every
+run) is observably `Default`: no keys, `total_weight` EXACTLY zero — also when `remove()` down to empty left a positive
+floating-point residue — and nothing mapped.  This is what makes "the snapshot stores only the pool size" sound for the
+RVB scratch containers; the harness asserts the same on the real code after every step through the allocator hook. -/
+theorem pooled_bondcontainer_reset_clean {F64 K : Type} (zero : F64) (idx : K → Nat) (bc : BondContainer F64 K)
+    (hinv : bcMapInv idx bc) : bcClean zero (bcClear zero idx bc) :=
+  bcClear_clean zero idx bc hinv
+
 end Pool
 
 section DefaultAlloc
@@ -330,6 +338,21 @@ example : (badStep (toyGrown badAdd)).total_swaps ≠ (badStep (resetCaches (toy
 /-- with the real (regenerated) add the two continuations agree -/
 example : (temperingStep toyOps (toyGrown addReplica)).total_swaps =
     (temperingStep toyOps (resetCaches (toyGrown addReplica))).total_swaps := by decide
+
+/-- a container emptied by `remove()` with a residue (weight 7 standing for the residue), reset: clean -/
+example : bcClean (0 : Nat) (bcClear 0 id (⟨[none, some 0, none], [(1, 5)], 7⟩ : BondContainer Nat Nat)) :=
+  pooled_bondcontainer_reset_clean 0 id _ (by
+    intro i v h
+    refine ⟨(1, 5), by simp, ?_⟩
+    match i, h with
+    | 1, _ => rfl
+    | 0, h => simp at h
+    | 2, h => simp at h
+    | (n + 3), h => simp at h)
+
+/-- … whereas a reset with an early return on empty `keys` (fourth-round seed) keeps the residue -/
+example : ¬ bcClean (0 : Nat) (⟨[none], [], 7⟩ : BondContainer Nat Nat) := by
+  intro h; exact absurd h.2.1 (by decide)
 
 end Examples
 
